@@ -76,6 +76,11 @@ def judge_value(module: str, name: str, value: Any, rec: Recorder | None = None)
         rec.case({"m": site, "t": rt.text}, nontrivial=rt.status == "ok" and rc.tree_depth(value) >= 3,
             labels=["catalogue"],
             sample={"member": site, "rendering": rt.text} if rt.status == "ok" and len(rec.samples) < 3 else None)
+    if rt.lex is not None and rt.lex.ambiguous() and rt.status not in ("crash",):
+        # two DIFFERENT atoms of one equation under one display name: read back, the rendering denotes another expression
+        # (e_1 + e_1 for e_1 + e_2), whatever the value comparison under a name-keyed interpretation says
+        return [(f"ambiguous-display-name:{site}", f"{MODE} rendering {rt.text!r} of {site}: the distinct atoms of the equation "
+            f"share the display name(s) {rt.lex.ambiguous()}")]
     if rt.status in ("mismatch", "crash", "internal-name", "malformed", "foreign-symbol"):
         return [(f"{rt.status}:{site}", f"{MODE} rendering {rt.text!r} of {site}: {rt.detail}")]
     return []
